@@ -32,8 +32,10 @@ func Run(c *hx.Ctx) {
 	// the real pools' side of the ledger (harness/c09): the multiplex pool with one-way requests (requests breaker, host /
 	// cluster request_active), the HTTP/2 pool against a scripted HTTP/2 upstream (connection_active through GOAWAY,
 	// replacement and closes in scripted orders)
-	c09.RunMux(c, "C10", c.N(80, 500))
-	c09.RunH2(c, "C10", c.N(100, 600))
+	// (run last: the histories above draw from c.Rng exactly as they did before these kinds existed, and the timing-sensitive
+	// tcp sessions do not share the process with what the pool worlds leave behind)
 	c03.RunMany(c, "C10", c.N(700, 2500), 8, true)
 	RunTcp(c, c.N(100, 500))
+	c09.RunMux(c, "C10", c.N(80, 500))
+	c09.RunH2(c, "C10", c.N(100, 600))
 }
